@@ -48,6 +48,8 @@ inline std::string TimeStr(uint64_t t) {return (t == kNever) ? std::string("neve
 // wantq n t           n will answer t the next time it is asked, but nobody is told (the old time stays in force)
 // period n d          after each Pulse() n asks for callbackTime+d  (d = 0: back to one-shot, i.e. "never" once satisfied)
 // incb n <op...>      register want/invalidate/wantq/attach/detach to be performed from inside n's next Pulse() callback
+// inq n <op...>       register want/invalidate/wantq on a strict descendant of n, or attach of an unattached node below n, to be performed from inside
+//                      n's next GetPulseTime() callback during the regular (first) recalculation of a wake ("including from inside callbacks")
 // wake d              recalculate; move the clock so that the first pulse instant is (reported next time + d); pulse
 // jump dt             clock_jump fault: the simulated clock leaps forward by dt
 struct GNode {bool alive; int parent; uint64_t w; uint64_t period; std::vector<std::vector<std::string> > cb; GNode() : alive(false), parent(-1), w(kNever), period(0) {}};
@@ -236,6 +238,28 @@ inline Plan Gen(uint64_t seed)
          // prefer a node that is likely to fire
          std::vector<int> hot; for (int n : all) if ((s.g[(size_t)n].w != kNever)&&(s.Attached(n))) hot.push_back(n);
          const int n = ((!hot.empty())&&(wl.pct(85))) ? wl.pick(hot) : wl.pick(all);
+         if (wl.pct(30))
+         {
+            // an operation from inside a GetPulseTime() callback: it may touch only what lies below the node that is being asked
+            std::vector<int> withKids; for (int q : all) {bool k = false; for (int i=0; i<s.hi; i++) if ((s.g[(size_t)i].alive)&&(i != q)&&(s.InSubtree(i, q))) k = true; if ((k)&&(s.Attached(q))) withKids.push_back(q);}
+            const int qn = withKids.empty() ? n : wl.pick(withKids);
+            std::vector<int> below; for (int i=0; i<s.hi; i++) if ((s.g[(size_t)i].alive)&&(i != qn)&&(s.InSubtree(i, qn))) below.push_back(i);
+            std::vector<int> loose; for (int i=0; i<s.hi; i++) if ((s.g[(size_t)i].alive)&&(!s.IsRoot(i))&&(s.g[(size_t)i].parent < 0)&&(!s.InSubtree(qn, i))) loose.push_back(i);
+            std::string l = "inq " + I(qn);
+            const uint32_t c = wl.below(10);
+            if ((c < 3)&&(!loose.empty())) {const int x = wl.pick(loose); std::vector<int> tg = below; tg.push_back(qn); const int y = wl.pick(tg); l += " attach " + I(x) + " " + I(y); s.g[(size_t)x].parent = y;}
+            else if (!below.empty())
+            {
+               const int d = wl.pick(below);
+               if (c < 8) {uint64_t est; const std::string tt = genTime(wl, est); s.g[(size_t)d].w = est; l += " want " + I(d) + " " + tt + (wl.oneIn(6) ? " k" : "");}
+               else if (c == 8) l += " invalidate " + I(d);
+               else {uint64_t est; const std::string tt = genTime(wl, est); l += " wantq " + I(d) + " " + tt;}
+            }
+            else {pushIncb(n, cbOp(wl)); continue;}
+            p.push_back(l);
+            if (wl.pct(50)) p.push_back("invalidate " + I(qn) + " k");   // make sure the node is asked at the next recalculation
+            continue;
+         }
          pushIncb(n, cbOp(wl)); continue;
       }
       if (kind == BURST)
@@ -295,6 +319,8 @@ inline Plan Gen(uint64_t seed)
    X(P_CB_SELF, "p.in_callback_self_invalidate") \
    X(P_CB_ATTACH, "p.in_callback_attach") \
    X(P_CB_DETACH, "p.in_callback_detach") \
+   X(P_INQ_INVALIDATE, "p.in_getpulsetime_invalidate_descendant") \
+   X(P_INQ_ATTACH, "p.in_getpulsetime_attach_below") \
    X(P_DEFERRAL, "p.displaced_branch_deferral") \
    X(P_DEFERRAL_REPARENT, "p.deferral_by_in_callback_reparent_only") \
    X(P_REPARENT, "p.reparent") \
@@ -336,6 +362,7 @@ public:
    uint64_t _pulsedSweep;     // number of the sweep that last ran our Pulse()
    uint64_t _period;
    std::vector<std::vector<std::string> > _incb;   // operations to perform from inside our next Pulse()
+   std::vector<std::vector<std::string> > _inq;    // operations to perform from inside our next GetPulseTime() (regular recalculation only)
 };
 
 class Mgr : public PulseNodeManager
@@ -351,12 +378,12 @@ struct H
    std::vector<Node *> nodes;    // by id
    Mgr mgr;
    bool failed; std::string fcls, fdetail;   // first violation noticed inside a library callback (thrown once the library call has returned)
-   bool inSweep, inRecalc, quiet; uint64_t sweepNo, curT; Node * running;
+   bool inSweep, inRecalc, quiet, allowInq; uint64_t sweepNo, curT; Node * running;
    std::vector<uint8_t> displaced, onStack; std::vector<uint64_t> rootT; std::vector<int> deferred;
    uint64_t callbacks, sweeps, queries, followups, faultsFired, lastNext;
    uint64_t ctr[NUM_K]; uint64_t maxNodes, maxAttached, maxDepth, maxPulsed;
 
-   H(const Plan & plan, RunResult & r) : res(r), cfg(plan), failed(false), inSweep(false), inRecalc(false), quiet(false), sweepNo(0), curT(0), running(NULL),
+   H(const Plan & plan, RunResult & r) : res(r), cfg(plan), failed(false), inSweep(false), inRecalc(false), quiet(false), allowInq(false), sweepNo(0), curT(0), running(NULL),
       displaced((size_t) kMaxId+1, 0), onStack((size_t) kMaxId+1, 0), callbacks(0), sweeps(0), queries(0), followups(0), faultsFired(0), lastNext(kNever), maxNodes(0), maxAttached(0), maxDepth(0), maxPulsed(0)
    {
       for (int k=0; k<NUM_K; k++) ctr[k] = 0;
@@ -479,7 +506,29 @@ struct H
       n->_reported = n->_want; n->_valid = true; n->_cause = CAUSE_NONE;
       th.u(0x51); th.u((uint64_t) n->_id); th.u(n->_want); th.u(callTime); th.u(prevTime);
       if (g_verbose) fprintf(stderr, "      GetPulseTime(node %d; now=%llu prev=%s) -> %s\n", n->_id, (unsigned long long) callTime, TimeStr(prevTime).c_str(), TimeStr(n->_want).c_str());
-      return n->_want;
+      const uint64_t answer = n->_want;
+      if ((allowInq)&&(!failed)&&(!n->_inq.empty()))
+      {
+         // operations from inside the GetPulseTime() callback, confined to what lies below n: everything they invalidate or attach is still ahead of
+         // this very recalculation (a node is asked before its needy children are), so the post-recalculation clauses apply unchanged
+         std::vector<std::vector<std::string> > ops; ops.swap(n->_inq);
+         for (auto & t : ops)
+         {
+            if (t.empty()) continue;
+            if (((t[0] == "want")||(t[0] == "invalidate")||(t[0] == "wantq"))&&(t.size() >= 2))
+            {
+               Node * x = Get(ToI(t[1])); if ((x == NULL)||(x == n)||(!InSubtree(x, n))) continue;
+               th.s("inq"); ctr[K_P_INQ_INVALIDATE]++; OpWant(t, 0, NULL);
+            }
+            else if ((t[0] == "attach")&&(t.size() >= 3))
+            {
+               Node * x = Get(ToI(t[1])), * y = Get(ToI(t[2]));
+               if ((x == NULL)||(y == NULL)||(IsRoot(x))||(x->_mparent >= 0)||(!InSubtree(y, n))||(InSubtree(y, x))||(InSubtree(n, x))) continue;
+               th.s("inq"); ctr[K_P_INQ_ATTACH]++; OpAttach(t, 0, NULL);
+            }
+         }
+      }
+      return answer;
    }
    void OnPulse(Node * n, uint64_t callTime, uint64_t schedTime)
    {
@@ -571,7 +620,7 @@ struct H
    void OpWake(int64_t delta)
    {
       const int64_t kMaxDelta = (int64_t) 1 << 60; if (delta > kMaxDelta) delta = kMaxDelta; if (delta < -kMaxDelta) delta = -kMaxDelta;
-      const uint64_t next = Recalc();
+      allowInq = true; const uint64_t next = Recalc(); allowInq = false;
       const uint64_t before = g_simNowUs, mag = (uint64_t)((delta < 0) ? -delta : delta);
       const bool finite = (next != kNever)&&(next < kClockCap);
       uint64_t target = finite ? ((delta < 0) ? ((mag > next) ? 0 : (next-mag)) : SatAdd(next, mag)) : SatAdd(before, 1 + std::min<uint64_t>(mag, 1000000000ULL));
@@ -646,6 +695,7 @@ inline void Exec(const Plan & plan, RunResult & res)
          else if ((t[0] == "want")||(t[0] == "invalidate")||(t[0] == "wantq")) h.OpWant(t, 0, NULL);
          else if ((t[0] == "period")&&(t.size() >= 3)) {Node * x = h.Get(ToI(t[1])); if (x) {x->_period = ToU(t[2]); h.th.u((uint64_t) x->_id); h.th.u(x->_period);}}
          else if (((t[0] == "incb")||(t[0] == "incallback"))&&(t.size() >= 3))   {Node * x = h.Get(ToI(t[1])); if (x) {x->_incb.push_back(std::vector<std::string>(t.begin()+2, t.end())); h.th.u((uint64_t) x->_id);}}
+         else if ((t[0] == "inq")&&(t.size() >= 3))    {Node * x = h.Get(ToI(t[1])); if (x) {x->_inq.push_back(std::vector<std::string>(t.begin()+2, t.end())); h.th.u((uint64_t) x->_id);}}
          else if ((t[0] == "wake")&&(t.size() >= 2))   h.OpWake(ToI(t[1]));
          else if ((t[0] == "jump")&&(t.size() >= 2))   h.OpJump(ToU(t[1]));
          h.Check();
